@@ -170,17 +170,20 @@ CLAIMS['C17'] = {
 # ---------------------------------------------------------------------------
 _ADDED = {
     'C02': ' A framer that raises on a well-formed stream is a verdict; parser readiness after a stream is judged by feeding one more packet.',
-    'C03': ' reply_seq: every sequence of <= 3 commands of six stateful command families (extended advertising sets with fragmented data, legacy advertising/scanning, filter and resolving lists, CIG/CIS, remote requests on classic and LE connections) to one controller, stepwise and as a burst of concurrent callers: each answered exactly once, every remote request accepted with status 0 concluded exactly once. overlap: 10 scripts of 2-3 remote requests in flight at the same time (one host; two hosts; two hosts asking about a third device) under every order-preserving delay with <= 1 (quick) / 2 deviations. The LE create-connection cancel race is also run with the cancel handed to the controller synchronously between any two link messages.',
-    'C04': ' queue_iso: the same BFS through a real Host whose handles are CIS links sharing the isochronous buffer pool (disconnection of a CIS must flush it). The canonical key is built from vars() of the real queue.',
+    'C03': ' reply_seq: every sequence of <= 3 commands of six stateful command families (extended advertising sets with fragmented data, legacy advertising/scanning, filter and resolving lists, CIG/CIS, remote requests on classic and LE connections) to one controller, stepwise and as a burst of concurrent callers: each answered exactly once, every remote request accepted with status 0 concluded exactly once. overlap: 10 scripts of 2-3 remote requests in flight at the same time (one host; two hosts; two hosts asking about a third device) under every order-preserving delay with <= 1 (quick) / 2 deviations. The LE create-connection cancel race is also run with the cancel handed to the controller synchronously between any two link messages. Extended-feature pages 0/1/4/255 are among the remote requests; a flow-control-only event that arrives after the response that closed the command window must re-open it by itself (the final rescue injection is made only when it came before).',
+    'C04': ' queue_iso: the same BFS through a real Host whose handles are CIS links sharing the isochronous buffer pool (disconnection of a CIS must flush it). The canonical key is built from vars() of the real queue. The host BFS also injects a Disconnection Complete with an error status (nothing may be discarded, no credit returned).',
     'C06': ' burst scripts: PDUs handed over and the link disconnected in one turn of the event loop (what was sent before the disconnect must arrive; PDUs racing towards the disconnecting end may be lost), also with hosts wired to their controllers synchronously. scanning_raw: the advertiser\'s host sets and replaces its advertising / scan-response data with raw HCI commands in whole, 2-, 3- and 4-fragment form, histories of 1-2 (quick) / 3 generations, legacy and extended advertiser: every report carries exactly the latest data.',
-    'C07': ' crossed: both devices open a channel towards each other at the same time (LE CoC and enhanced), which gives crossed identifiers (local 0x40 / peer 0x41 and local 0x41 / peer 0x40); one is closed by either end or none, then the survivor carries 4 x credits + 3 writes in both directions with initial credits 1, 2 (thorough 3, 7): all bytes arrive and drain() completes.',
-    'C09': ' cancel: the caller gives up on a pending open (task cancellation, as wait_for does) at every message boundary of the open, followed by opens and closes; 90 cancel/open/close rounds for identifier exhaustion.',
+    'C07': ' crossed: both devices open a channel towards each other at the same time (LE CoC and enhanced), which gives crossed identifiers (local 0x40 / peer 0x41 and local 0x41 / peer 0x40); one is closed by either end or none, then the survivor carries 4 x credits + 3 writes in both directions with initial credits 1, 2 (thorough 3, 7): all bytes arrive and drain() completes. wrap: 300-700 (thorough 1500) one-frame writes each way to receivers with 1-2 credits (a Flow Control Credit packet per frame: the signalling identifier wraps more than once).',
+    'C09': ' cancel: the caller gives up on a pending open (task cancellation, as wait_for does) at every message boundary of the open, followed by opens and closes; 90 cancel/open/close rounds for identifier exhaustion. reopen: a channel opened from the close handler of a channel whose two halves were closed at the same time (or by one end), all kinds, then one more open; also explored with d <= 1.',
     'C10': ' Database shape "widths": runs of consecutive attributes whose type is a 32-bit UUID next to 16- and 128-bit ones (entries are budgeted by their size on the air).',
-    'C11': ' Permissions assigned after construction (an open attribute tightened, a restricted one loosened) on three placements x the 32-set lattice. concurrent: a server with an encrypted+authenticated link and a plain link; an asynchronous application read / write callback is held open so that one link\'s request is still being served when the other link asks for the same attribute: both orders x every pair of access paths x each requirement bit.',
+    'C11': ' Permissions assigned after construction (an open attribute tightened, a restricted one loosened) on three placements x the 32-set lattice. concurrent: a server with an encrypted+authenticated link and a plain link; an asynchronous application read / write callback is held open so that one link\'s request is still being served when the other link asks for the same attribute: both orders x every pair of access paths x each requirement bit. Two more placements declare PROPERTIES that do not advertise the operation (notify-only, read-only characteristic): the permissions still decide.',
     'C14': ' The patched random source serves distinct later draws (an implementation may reject a draw and draw again); addresses built by the reference from the draw under test are resolved as well.',
-    'C17': ' RFCOMM: hostile but parseable parameter negotiation (PN with frame size 0..6, 23 x initial credits 0, 1, 7 x both convergence layers) followed by SABM, data, credits and DISC on the negotiated link, with an echoing acceptor.',
-    'C19': ' SDP shape records (40 empty sequences / alternatives, 41-wide and 20-deep containers, signed and 64-bit integers, empty and 260-byte strings); patterns naming one UUID twice. stream_veto: every API sequence of <= 4 (thorough 5) procedures with one step refused by the acceptor\'s application: the caller is told and both ends stay in one state. The AVCTP fragment-sequence BFS is repeated in the fragment layout the assembler reassembles at all when that is not the specification\'s (auto-detected; see the recorded finding).',
-    'C20': ' The SLC is also run over every RFCOMM frame size 23..95 and the length-encoding boundaries (thorough 23..299) for the longest and shortest negotiation and every indicator set. late_sink: 2-3 data links receive data before the application attaches their sinks, every attach order, both directions.',
+    'C17': ' RFCOMM: hostile but parseable parameter negotiation (PN with frame size 0..6, 23 x initial credits 0, 1, 7 x both convergence layers) followed by SABM, data, credits and DISC on the negotiated link, with an echoing acceptor. controller_dialects: every genuine Number Of Completed Packets / Command Complete event of the victim\'s controller rewritten into an unusual but well-formed form (unknown handle listed first / last, a zero-count entry, an extra empty event, a flow-control-only event after every response) while 80 reference requests are served. LE CoC bed: after a frame that breaks the channel\'s rules (longer than MPS, SDU longer than MTU, SDU overflow; independent decode) the victim may disconnect the CHANNEL as the specification asks - the raw attacker answers the Disconnection Request and the reference request is made on a new channel of the same connection.',
+    'C19': ' SDP shape records (40 empty sequences / alternatives, 41-wide and 20-deep containers, signed and 64-bit integers, empty and 260-byte strings); patterns naming one UUID twice. stream_veto: every API sequence of <= 4 (thorough 5) procedures with one step refused by the acceptor\'s application: the caller is told and both ends stay in one state. The AVCTP fragment-sequence BFS is repeated in the fragment layout the assembler reassembles at all when that is not the specification\'s (auto-detected; see the recorded finding). sdp_multi also explores the other client connecting / disconnecting while a transaction with continuations is under way; raw stream operations include Start / Suspend naming the stream together with a non-existent SEID (refused as a whole, state unchanged).',
+    'C20': ' The SLC is also run over every RFCOMM frame size 23..95 and the length-encoding boundaries (thorough 23..299) for the longest and shortest negotiation and every indicator set. late_sink: 2-3 data links receive data before the application attaches their sinks, every attach order, both directions. Bidirectional transfers of 33 and 70 frames each way (more than the 32 credits an end ever holds) are in both tiers.',
+    'C08': ' crossed: both devices open a classic channel towards each other at the same time (Basic and ERTM, classic and LE links), which gives crossed identifiers; one is closed by either end or none; the survivor then carries 7 SDUs of growing size in both directions.',
+    'C12': ' Link type eatt_n: 2-3 enhanced bearers opened by ONE connect_eatt call; discovery, reads and writes are then done on bearer number k of them.',
+    'C15': ' The reference model keeps a namespace in existence once something was stored in it (its store goes on answering from it when it is empty again, whatever the file lists).',
 }
 for _k, _t in _ADDED.items():
     CLAIMS[_k]['text'] = CLAIMS[_k]['text'].rstrip() + _t
